@@ -10,6 +10,10 @@ family's width" = `*_intToPacked_spec`, `toBytes_spec` (+ `beBytes_length`, `beV
 the original value for every encoder output" = `*_roundtrip`; "and raise on input of the wrong
 length, with a word or value out of range, or with a digit outside the numeral's base" =
 `wordsToInt_spec`, `*_packedToInt_spec`, `bitsToInt_reject`, `binToInt_reject`, `base85_reject`.
+
+Second layer in Props/C15Deep.lean: signed arguments (`…Z` functions, what the driver runs),
+`validWords_iff` / `validBits_iff` / `validBin_iff`, `bits_roundtrip_anysep` (every separator),
+`base85_roundtrip_text` (the text `base85_to_ipv6` returns, through C01).
 -/
 import NetaddrVerif.Lemmas.C15LBytes
 import NetaddrVerif.Lemmas.C15LBits
